@@ -1822,6 +1822,228 @@ def c16(tier, seed):
 
 
 # ---------------------------------------------------------------------------------------------
+# C20: BasicHTTP event I/O processor (Http.tla, TraceC20.tla)
+# ---------------------------------------------------------------------------------------------
+HTTP_TYPE = "http://www.w3.org/TR/scxml/#BasicHTTPEventProcessor"
+C20_TOKENS = ["plain", "a.b.c", "sp ace", "amp&er", "eq=ual", "plus+sign", "pct%41", "q?x#y", "slash/back\\", "uml-\u00e4\u00f6\u00fc",
+              "cjk-\u65e5\u672c", "emoji-\U0001F600", "quote'\"", "semi;colon", "lt<gt>", "a  b", " lead", "trail ", "%", "+", "%zz", "e\u0301"]
+C20_VALUES = C20_TOKENS + ["", "line\nbreak", "cr\r\nlf", "tab\there", "0", "-1", "true", "null", "x" * 300]
+
+
+def c20_docs(dm):
+    hdr = '<scxml xmlns="http://www.w3.org/2005/07/scxml" version="1.0" datamodel="%s" name="%s">'
+    R = (hdr % (dm, "R")) + '<state id="s">' \
+        "<onentry><script>mark('loc', _ioprocessors['%s'].location)</script></onentry>" % HTTP_TYPE + \
+        '<transition event="intro"><send targetexpr="\'#_scxml_\' + _event.data.peer" event="loc">' \
+        '<param name="loc" expr="_ioprocessors[\'%s\'].location"/></send></transition>' % HTTP_TYPE + \
+        "<transition event=\"*\"><script>mark('R', _event.name, _event.data, _event.type)</script></transition></state></scxml>"
+    S = (hdr % (dm, "S")) + '<datamodel><data id="peerloc" expr="\'\'"/></datamodel><state id="s">' \
+        '<transition event="loc"><assign location="peerloc" expr="_event.data.loc"/></transition>' \
+        '<transition event="fire.all"><send type="%s" targetexpr="peerloc" eventexpr="_event.data.n">' \
+        '<param name="ps" expr="_event.data.s"/><param name="pi" expr="_event.data.i"/><param name="pb" expr="true"/>' \
+        '<param name="pn" expr="-7"/></send></transition>' % HTTP_TYPE + \
+        '<transition event="fire.none"><send type="%s" targetexpr="peerloc" eventexpr="_event.data.n"/></transition>' % HTTP_TYPE + \
+        '<transition event="fire.short"><send type="basichttp" targetexpr="peerloc" eventexpr="_event.data.n">' \
+        '<param name="%s" expr="_event.data.s"/></send></transition>' % "k e&amp;y" + \
+        "</state></scxml>"
+    return R, S
+
+
+def http_lock():
+    import fcntl
+    os.makedirs(vlib.WORK, exist_ok=True)
+    f = open(os.path.join(vlib.WORK, ".http.lock"), "w")
+    t0 = time.time()
+    while True:
+        try:
+            fcntl.flock(f, fcntl.LOCK_EX | fcntl.LOCK_NB)
+            break
+        except OSError:
+            if time.time() - t0 > 900:
+                raise ToolError("C20: another check holds the HTTP port lock for more than 15 minutes")
+            time.sleep(0.5)
+    import socket
+    t0 = time.time()
+    while True:
+        sk = socket.socket()
+        try:
+            sk.bind(("127.0.0.1", 5555))
+            sk.close()
+            break
+        except OSError:
+            sk.close()
+            if time.time() - t0 > 60:
+                raise ToolError("C20: port 5555 (hard-coded in BasicHTTPEventIOProcessor::new) is in use by another process")
+            time.sleep(0.5)
+    return f
+
+
+@check("C20")
+def c20(tier, seed):
+    t0 = time.time()
+    wd = vlib.workdir("C20")
+    V = vlib.Verdicts("C20")
+    vlib.build_harness()
+    rng = random.Random(seed)
+    mc = vlib.run_tlc("MCHttp", "MCHttp.cfg", wd, timeout=900, workers=8,
+                      consts=None if tier == "quick" else {"Clients": '{"c1","c2","c3"}'})
+    mc["text"] = ""
+    NAME = "_scxmleventname"
+    jobs, meta = [], {}
+    tagc = [0]
+
+    def req(kind, tok, plus, client):
+        """-> (step, post fact)"""
+        tagc[0] += 1
+        tag = tagc[0]
+        name = "%s.%d" % (tok, tag)
+        sid, to = "live", "R"
+        fields = [[NAME, name]]
+        if kind == "params":
+            fields = [[rng.choice(C20_TOKENS) + ".k1", rng.choice(C20_VALUES)], [NAME, name], [rng.choice(C20_TOKENS) + ".k2", rng.choice(C20_VALUES)]]
+            rng.shuffle(fields)
+        elif kind == "content":
+            fields = [[NAME, name], ["_content", rng.choice(C20_VALUES)]]
+            rng.shuffle(fields)
+        elif kind == "noname":
+            fields = [[rng.choice(C20_TOKENS) + ".k", rng.choice(C20_VALUES)]] if rng.random() < 0.7 else []
+        elif kind == "wrongcase":
+            fields = [["_SCXMLEVENTNAME", name], ["p", "1"]]
+        elif kind == "unknown":
+            sid, to = "unknown", rng.choice(["raw:4000000", "raw:0", "raw:77777"])
+        elif kind == "text":
+            sid, to = "text", "raw:" + rng.choice(["abc", "1x", "-1", "1.5", "99999999999", "0x10", "%41"])
+        step = {"post": to, "tag": tag, "fields": fields, "plus": plus}
+        return step, {"tag": tag, "client": client, "sid": sid, "fields": fields, "status": None}
+
+    kinds = ["plain", "params", "content", "noname", "wrongcase", "unknown", "text"]
+    dms = ["ecmascript"] if tier == "quick" else ["ecmascript", "rfsm-expression"]
+    for dm in dms:
+        R, S = c20_docs(dm)
+        base = [{"start": "R"}, {"start": "S"}, {"settle": 30},
+                {"send": "R", "event": {"name": "intro", "params": {"peer": "$sid:S"}}}, {"settle": 30}]
+        opts = {"ecma:strict": ""} if dm == "ecmascript" else None
+        # (1) sequential: every request kind x every token, both spellings of a blank
+        steps, posts = list(base), []
+        for tok in C20_TOKENS:
+            for kind in kinds:
+                st, f = req(kind, tok, rng.random() < 0.5, "c1")
+                steps.append(st)
+                posts.append(f)
+        steps.append({"settle": 60})
+        jid = len(jobs) + 1
+        jobs.append({"id": jid, "http": True, "sessions": [{"name": "R", "xml": R}, {"name": "S", "xml": S}], "steps": steps, "timeout_ms": 120000})
+        meta[jid] = ("sequential:" + dm, posts, [])
+        # (2) concurrent clients
+        nclients, nposts = (4, 12) if tier == "quick" else (8, 60)
+        groups, posts = [], []
+        for c in range(nclients):
+            g = []
+            for _ in range(nposts):
+                st, f = req(rng.choice(kinds), rng.choice(C20_TOKENS), rng.random() < 0.5, "c%d" % (c + 1))
+                g.append(st)
+                posts.append(f)
+            groups.append(g)
+        jid = len(jobs) + 1
+        jobs.append({"id": jid, "http": True, "sessions": [{"name": "R", "xml": R}, {"name": "S", "xml": S}],
+                     "steps": base + [{"threads": groups}, {"settle": 60}], "timeout_ms": 120000})
+        meta[jid] = ("concurrent:" + dm, posts, [])
+        # (3) the processor as sender: S -> location published by R
+        steps, psends = list(base), []
+        for tok in C20_TOKENS:
+            for form in ("all", "none", "short"):
+                tagc[0] += 1
+                name = "%s.%d" % (tok, tagc[0])
+                sval = rng.choice(C20_VALUES)
+                ival = rng.randint(0, 100000)
+                steps.append({"send": "S", "event": {"name": "fire." + form, "params": {"n": name, "s": sval, "i": ival}}})
+                if form == "all":
+                    params = [["ps", "str", 0, sval], ["pi", "int", ival, ""], ["pb", "bool", 1, ""], ["pn", "negint", 7, ""]]
+                elif form == "short":
+                    params = [["k e&y", "str", 0, sval]]
+                else:
+                    params = []
+                psends.append({"name": name, "params": params})
+            steps.append({"settle": 10})
+        steps.append({"settle": 150})
+        jid = len(jobs) + 1
+        jobs.append({"id": jid, "http": True, "sessions": [{"name": "R", "xml": R}, {"name": "S", "xml": S}], "steps": steps, "timeout_ms": 180000})
+        meta[jid] = ("send:" + dm, [], psends)
+        for j in jobs[-3:]:
+            if opts:
+                j["options"] = opts
+    lock = http_lock()
+    try:
+        res = run_scen_jobs(jobs, wd, threads=1, timeout=1500)
+    finally:
+        lock.close()
+    scens = []
+    for j in jobs:
+        r = res[j["id"]]
+        name, posts, psends = meta[j["id"]]
+        if r.get("tool_error") or r.get("errors"):
+            raise ToolError("C20 scenario %s: %s" % (name, r.get("errors")))
+        st = {p[0]: p[1] for p in r["posts"]}
+        for f in posts:
+            f["status"] = st.get(f["tag"], 0)
+        ridx = [n for n in r["names"] if n[0] == "R"][0][1]
+        recvs = []
+        for sl in r["sessions"]:
+            if sl["idx"] != ridx:
+                continue
+            for x in sl["recs"]:
+                if x[0] == "M" and x[1] == "R":
+                    nm, data = x[2][0], x[2][1]
+                    if isinstance(data, dict) and "_none" not in data and "_err" not in data:
+                        rec = {"name": nm, "kind": "map", "map": [[k2, tracelib.val_str(v2)] for k2, v2 in sorted(data.items())], "text": ""}
+                    elif isinstance(data, str):
+                        rec = {"name": nm, "kind": "text", "map": [], "text": data}
+                    elif data is None or isinstance(data, dict):
+                        rec = {"name": nm, "kind": "none", "map": [], "text": ""}
+                    else:
+                        rec = {"name": nm, "kind": "text", "map": [], "text": tracelib.val_str(data)}
+                    recvs.append(rec)
+        scens.append({"posts": posts, "psends": psends, "recvs": recvs, "jid": j["id"],
+                      "bad": bool(r.get("panics") or r.get("other_panics") or r.get("stalls"))})
+    with open(os.path.join(wd, "traces.ndjson"), "w") as f:
+        for sc in scens:
+            f.write(json.dumps({k2: sc[k2] for k2 in ("posts", "psends", "recvs")}) + "\n")
+    tv = vlib.run_tlc("TraceC20", "TraceC20.cfg", wd, env={"TRACES": "traces.ndjson"}, timeout=1500)
+    acc = len(vlib.tlc_tuples(tv["text"], "ACCEPT"))
+    for t in vlib.tlc_tuples(tv["text"], "REJECT"):
+        v = vlib.parse_tla_value(t)
+        sc = scens[v[1] - 1]
+        name = meta[sc["jid"]][0]
+        culprit = [p for p in sc["posts"] if p["tag"] == v[3]] or ([sc["psends"][v[3] - 1]] if sc["psends"] and 0 < v[3] <= len(sc["psends"]) else [])
+        V.report("%s:%s" % (v[2], name.split(":")[0]), "%s in scenario %s: %s" % (v[2], name, json.dumps(culprit)[:300]),
+                 {"class": v[2], "scenario": name, "culprit": culprit,
+                  "recvs_with_that_name": [r2 for r2 in sc["recvs"] if culprit and r2["name"] in json.dumps(culprit, ensure_ascii=False)][:3]})
+    tv["text"] = ""
+    for sc in scens:
+        if sc["bad"]:
+            r = res[sc["jid"]]
+            V.report("session-failure:%s" % meta[sc["jid"]][0], "panic or stall in scenario %s" % meta[sc["jid"]][0],
+                     {"result": {k2: r.get(k2) for k2 in ("panics", "other_panics", "stalls")}})
+    if acc == 0 and not V.violations:
+        raise ToolError("C20: nothing accepted")
+    rc = V.finish()
+    nposts = sum(len(sc["posts"]) for sc in scens)
+    nacc = sum(1 for sc in scens for p in sc["posts"] if p["status"] == 200)
+    cov = {"states": mc["distinct"] + tv["distinct"], "transitions": mc["states"] + tv["states"], "traces_validated_against_impl": acc,
+           "samples": [{"scenario": meta[scens[0]["jid"]][0], "posts": scens[0]["posts"][:3], "recvs": scens[0]["recvs"][:3]}],
+           "evaluations": nposts + sum(len(sc["psends"]) for sc in scens), "distinct_nontrivial": nacc,
+           "rule": "Http.tla model-checked (concurrent clients x all pairs of 7 request shapes: ExactlyAccepted, RepliesTruthful, "
+                   "PerClientOrder, Faithful); %d HTTP requests (%d accepted) - 7 request kinds x %d tokens needing URL encoding, blanks "
+                   "as '+' and as %%20, sequentially and from concurrent clients - and %d events sent through the processor to the "
+                   "published location were judged by TraceC20.tla with Http!Handle"
+                   % (nposts, nacc, len(C20_TOKENS), sum(len(sc["psends"]) for sc in scens))}
+    vlib.write_evidence("C20", tier, seed, "model_checking", cov, time.time() - t0, len(V.violations),
+                        ["the port 5555 is hard-coded in the implementation: scenarios run one at a time under a file lock",
+                         "requests with duplicate field names or with both _content and other fields are not generated (the property does not say what they mean)"])
+    return rc
+
+
+# ---------------------------------------------------------------------------------------------
 # C10 / C11: Expr.tla as generator + oracle, the engine evaluated in `vh expr`
 # ---------------------------------------------------------------------------------------------
 OPERANDS = ["0", "1", "2", "3", "7", "10", "-1", "-4", "2.5", "0.5", "1.0", "-1.5", "'a'", "'b'", "'ab'", "''", "true",
